@@ -757,8 +757,13 @@ func (index *fkIndex) ProcessAfterUpdate(ctx *IndexingContext) {
 func (index *fkIndex) ProcessBeforeDelete(ctx *IndexingContext) {
 	if !ctx.ErrHolder.HasError() {
 		if _, value := index.symbol.Eval(ctx.Tx(), ctx.RowId); len(value) > 0 {
-			indexBucket := index.getIndexBucket(ctx.Tx(), value)
-			ctx.ErrHolder.SetError(indexBucket.DeleteListEntry(TypeString, ctx.RowId).Err)
+			// DeleteById runs the delete constraints once per store level (child store first, then the parent):
+			// a cascading delete of the first round may already have removed the target, and with it the
+			// back-reference set
+			if index.fkSymbol.GetStore().IsEntityPresent(ctx.Tx(), string(value)) {
+				indexBucket := index.getIndexBucket(ctx.Tx(), value)
+				ctx.ErrHolder.SetError(indexBucket.DeleteListEntry(TypeString, ctx.RowId).Err)
+			}
 		}
 	}
 }
